@@ -16,9 +16,9 @@ identities evaluated by the harness:
 * Blast._calc_receive_filter(H, s) == sqrt(Nt) * (MMSE or ZF reference)
 
 Channel families (vmc.families, no random generator): every matrix with
-entries in {1,j,-1} of the small shapes, every {0,+-1,+-j} matrix of the 2x2 /
-row shapes, the generic family G_s, nearly dependent members with kappa 1e2 /
-1e4.  Members that are column-rank deficient or have kappa > 1e4 are excluded
+entries in {1,j,-1} and <= 6 (thorough 9) entries, every {0,+-1,+-j} matrix with
+<= 4 (thorough 6) entries, the generic family G_s, nearly dependent members with
+kappa 1e2 / 1e4.  Members that are column-rank deficient or have kappa > 1e4 are excluded
 and counted.
 """
 import itertools
@@ -36,9 +36,9 @@ LEVEL = "exploration"
 ENGINE = "E1 exhaustive product: schemes x shapes x matrix families x block lengths"
 RULE = ("Blast/SVDMimo/GMDMimo on every shape 1<=Nt<=Nr<=4, MRC Nr 1..4 (1-D and (Nr,1) channel), "
         "MRT Nt 1..4 (1-D and (1,Nt)), Alamouti Nr 1..4 (and 1-D channel of 2 taps); channels: all "
-        "{1,j,-1}-entry matrices with <=8 (thorough 9) entries, all {0,+-1,+-j} matrices of 2x2/(1,Nt)/(Nr,1), "
-        "generic family G_s s<30 (thorough 100), nearly dependent members (kappa 1e2,1e4) likewise; filtered to full column rank "
-        "and kappa<=1e4 (Alamouti/MRT: non-zero channel; their equivalent channel is a scalar); data = "
+        "{1,j,-1}-entry matrices with <=6 (thorough 9) entries, all {0,+-1,+-j} matrices with <=4 (thorough 6) "
+        "entries, generic family G_s s<30 (thorough 100), nearly dependent members (kappa 1e2,1e4) likewise; "
+        "filtered to full column rank and kappa<=1e4 (Alamouti/MRT: non-zero channel; their equivalent channel is a scalar); data = "
         "distinguishable symbols of length layers*{1,2,3} (Alamouti {2,4,6}); noise variances "
         "1,1e-2,..,1e-8 for the filter relations.  A case is non-trivial when the scheme has to undo "
         "a channel that is not a multiple of the identity (Nr*Nt>1); distinct = distinct "
@@ -65,7 +65,7 @@ def shapes():
 def channel_items(tier):
     """deterministic list generator of (family, member, H)"""
     thorough = tier == "thorough"
-    max_entries3 = 9 if thorough else 8
+    max_entries3 = 9 if thorough else 6
     S = 100 if thorough else 30
     for (nr, nt) in shapes():
         if nr * nt <= max_entries3:
@@ -133,7 +133,8 @@ def run_roundtrip(chk, case):
     nr, nt = H.shape
     kappa = case["kappa"]
     cls = shape_class(nr, nt)
-    with chk.guard((scheme, cls), case):
+    chk.outcome("scheme_shape", (scheme, form, nr, nt))    # recorded before the library is called: a
+    with chk.guard((scheme, cls), case):                   # crashing scheme is a violation, not vacuity
         chk.count("eval_roundtrip")
         obj = make_scheme(scheme, form, H)
         layers = obj.getNumberOfLayers()
@@ -168,7 +169,6 @@ def run_roundtrip(chk, case):
                      msg="max err %.3g, kappa %.3g" % (N.err(r, d), kappa))
         if nblk == 1 and scheme != "Alamouti":
             check_pair(chk, case, obj, scheme, H, kappa, layers)
-        chk.outcome("scheme_shape", (scheme, form, nr, nt))
         chk.outcome("uses", (scheme, x.shape[1]))
         if nr * nt > 1:
             chk.nontriv((scheme, form, case["fam"], case["member"], nr, nt, nblk))
@@ -215,6 +215,8 @@ def run_filters(chk, case):
     pinv_ref = np.linalg.solve(R, Q.conj().T)
     U, sv, Vh = np.linalg.svd(H, full_matrices=False)
     npinv2 = 1.0 / sv[-1]
+    chk.outcome("kappa_decade", int(math.floor(math.log10(max(kappa, 1.0)) + 1e-9)))
+    chk.outcome("filter_shape", (nr, nt))
     with chk.guard(("zf_filter", shape_class(nr, nt)), case):
         chk.count("eval_zf")
         G = np.asarray(M.MimoBase._calcZeroForceFilter(np.array(H)))
@@ -267,8 +269,6 @@ def run_filters(chk, case):
             if not N.close(Bm, math.sqrt(nt) * Wref, k2, C_MMSE):
                 chk.fail(("blast_receive_filter", "noise>0", "not_sqrtNt_mmse"), dict(case, sigma2=s2),
                          observed=N.err(Bm, math.sqrt(nt) * Wref), expected=0)
-        chk.outcome("kappa_decade", int(math.floor(math.log10(max(kappa, 1.0)) + 1e-9)))
-        chk.outcome("filter_shape", (nr, nt))
         if nr * nt > 1:
             chk.nontriv(("filters", case["fam"], case["member"], nr, nt))
 
